@@ -21,7 +21,7 @@ STRINGS = [
     "x" * 300, "\x00", "\x1f", "\r", "a\r\nb", "\x7f", "\ud7ff", "\ufffd", "=", "<<", "?", "|", ">", "@at", "`bt`", "%p",
     "'", '"', "''", "\\", "\\n", "a b", "k0", "item", "type", "config",
     "http://example.com/index.html", "src/*.py and tests/*/conftest.py", "// not a comment", "/* neither */", "a//b", "# x", "<!--x-->",
-    "First_x0020_Name", "l1_x000A_l2", "_x0041_", "_x000D_", "&#10;", "&#x41;", "\\u0041", "%41", "p1\n\np2", "l1\n  \nl2\n", "\n\n\n", "--", "%YAML 1.2", "---", "...", "&anchor", "*alias", "!!python/object:os.system", "${HOME}", "%(x)s", "{{ x }}",
+    "C:\\ProgramData\\app\\", "ends-with-backslash\\", "^[a-z0-9_,]+$", "{a, b, }", "[1, 2, ]", "First_x0020_Name", "l1_x000A_l2", "_x0041_", "_x000D_", "&#10;", "&#x41;", "\\u0041", "%41", "p1\n\np2", "l1\n  \nl2\n", "\n\n\n", "--", "%YAML 1.2", "---", "...", "&anchor", "*alias", "!!python/object:os.system", "${HOME}", "%(x)s", "{{ x }}",
 ]
 KEYS = ["k0", "k1", "k2", "item", "type", "config", "a.b", "a-b", "_u", "K", "x9", "CONFIG", "cfg", "key", "value",
         "list", "dict", "str", "none"]
